@@ -15,7 +15,7 @@ import os
 import sys
 from pathlib import Path
 
-from harness.py2coq import (B, LIST, OBJ, OPT, PREAMBLE, Q, S, TUP, Z, Translator, Untranslatable, find_def)
+from harness.py2coq import B, OBJ, PREAMBLE, Q, S, TUP, Z, Translator, Untranslatable, find_def
 
 VERIF = Path(__file__).resolve().parent.parent
 COQ = VERIF / 'coq'
@@ -27,36 +27,36 @@ CLASSES = {
     'Background2D': {'fields': [('exclude_percentile', Q), ('_box_npixels', Z)]},
 }
 
-# kind 'def': a whole function / method.  kind 'var': the value of a local after its assignments
+# kind 'def': a whole function / method; `sorts` = the sorts of its parameters after self / cls, in order.  kind 'var': the value of a local after its assignments
 # (py2coq.Translator.var_chain).  Order matters: callees before callers.
 TARGETS = [
     # ---- Gen_bbox.v (C01, C02) ----
     dict(gen='Gen_bbox', file=BBOX, qual='BoundingBox.__init__', name='gen_bbox_init',
-         sorts={'ixmin': Z, 'ixmax': Z, 'iymin': Z, 'iymax': Z}),
+         sorts=[Z, Z, Z, Z]),
     dict(gen='Gen_bbox', file=BBOX, qual='BoundingBox.from_float', name='gen_from_float',
-         sorts={'xmin': Q, 'xmax': Q, 'ymin': Q, 'ymax': Q}),
-    dict(gen='Gen_bbox', file=BBOX, qual='BoundingBox.center', name='gen_bbox_center', sorts={}),
-    dict(gen='Gen_bbox', file=BBOX, qual='BoundingBox.shape', name='gen_bbox_shape', sorts={}),
-    dict(gen='Gen_bbox', file=BBOX, qual='BoundingBox.extent', name='gen_bbox_extent', sorts={}),
+         sorts=[Q, Q, Q, Q]),
+    dict(gen='Gen_bbox', file=BBOX, qual='BoundingBox.center', name='gen_bbox_center', sorts=[]),
+    dict(gen='Gen_bbox', file=BBOX, qual='BoundingBox.shape', name='gen_bbox_shape', sorts=[]),
+    dict(gen='Gen_bbox', file=BBOX, qual='BoundingBox.extent', name='gen_bbox_extent', sorts=[]),
     dict(gen='Gen_bbox', file=BBOX, qual='BoundingBox.get_overlap_slices', name='gen_get_overlap_slices',
-         sorts={'shape': TUP(Z, Z)}),
+         sorts=[TUP(Z, Z)]),
     dict(gen='Gen_bbox', file=BBOX, qual='BoundingBox.union', name='gen_bbox_union',
-         sorts={'other': OBJ('BoundingBox')}),
+         sorts=[OBJ('BoundingBox')]),
     dict(gen='Gen_bbox', file=BBOX, qual='BoundingBox.intersection', name='gen_bbox_intersection',
-         sorts={'other': OBJ('BoundingBox')}),
+         sorts=[OBJ('BoundingBox')]),
     dict(gen='Gen_bbox', file=BBOX, qual='BoundingBox.__or__', name='gen_bbox_or',
-         sorts={'other': OBJ('BoundingBox')}),
+         sorts=[OBJ('BoundingBox')]),
     dict(gen='Gen_bbox', file=BBOX, qual='BoundingBox.__and__', name='gen_bbox_and',
-         sorts={'other': OBJ('BoundingBox')}),
+         sorts=[OBJ('BoundingBox')]),
     # ---- Gen_apcore.v (C01) ----
     dict(gen='Gen_apcore', file='photutils/aperture/core.py', qual='PixelAperture._translate_mask_mode',
-         name='gen_translate_mask_mode', sorts={'mode': S, 'subpixels': Z, 'rectangle': B}),
+         name='gen_translate_mask_mode', sorts=[S, Z, B]),
     # ---- Gen_round.v (C17) ----
     dict(gen='Gen_round', file='photutils/utils/_round.py', qual='py2intround', name='gen_py2intround',
-         sorts={'a': Q}, elementwise=True),
+         sorts=[Q], elementwise=True),
     # ---- Gen_psf.v (C13) ----
     dict(gen='Gen_psf', file='photutils/psf/gridded_models.py', qual='GriddedPSFModel._calc_bilinear_weights',
-         name='gen_calc_bilinear_weights', sorts={'xi': Q, 'yi': Q, 'grid_xy': TUP(Q, Q, Q, Q)}, no_self=True),
+         name='gen_calc_bilinear_weights', sorts=[Q, Q, TUP(Q, Q, Q, Q)], no_self=True),
     dict(gen='Gen_psf', kind='var', var='xi', file='photutils/psf/image_models.py', qual='ImagePSF.evaluate',
          name='gen_imagepsf_xi', sorts={'x': Q, 'x_0': Q}, elementwise=True,
          fields=[('oversampling', TUP(Z, Z)), ('_origin', TUP(Q, Q))]),
@@ -76,12 +76,12 @@ TARGETS = [
          sorts={'nx': Z, 'ny': Z, 'xi': Q, 'yi': Q}, elementwise=True),
     # ---- Gen_isophote.v (C20) ----
     dict(gen='Gen_isophote', file='photutils/isophote/geometry.py', qual='EllipseGeometry.update_sma',
-         name='gen_update_sma', sorts={'step': Q}),
+         name='gen_update_sma', sorts=[Q]),
     dict(gen='Gen_isophote', file='photutils/isophote/geometry.py', qual='EllipseGeometry.reset_sma',
-         name='gen_reset_sma', sorts={'step': Q}),
+         name='gen_reset_sma', sorts=[Q]),
     # ---- Gen_bkg.v (C11) ----
     dict(gen='Gen_bkg', file='photutils/background/background_2d.py', qual='Background2D._good_npixels_threshold',
-         name='gen_good_npixels_threshold', sorts={}),
+         name='gen_good_npixels_threshold', sorts=[]),
     dict(gen='Gen_bkg', kind='var', var='box_mask', file='photutils/background/background_2d.py',
          qual='Background2D._compute_box_statistics', name='gen_box_mask', sorts={'ngood': Z}, elementwise=True),
 ]
